@@ -11,9 +11,9 @@
       num     how the code writes an index: Go [int] on the server, a float64 after JSON
       as_num  [x.(float64)] holding an integral value (merge.uncompressIndices)
       fix4    which diffMap is modelled (see below); not an operation on atoms, but it travels with them
-      keyable the scalar can be the "__key" of an object without making diff.Diff panic: the comparable ones in the
-              tree as it is ([==] on two []byte keys panics, so does using one as a map key); all of them with
-              patches/C03-fix-5 (keys compared by content)
+      keyable the scalar can be the "__key" of an object without making diff.Diff panic: all scalars with
+              patches/C03-fix-5 (in /repo: keys compared by content); only the comparable ones before it ([==] on
+              two []byte keys panics, so does using one as a map key)
       guide   [None]: the index list of a list diff is computed as diff.computeReorderIndices does.
               [Some g]: where [g old new] proposes an index list of the right length with entries in range, that
               one is used instead ([vchoose]).  The round trip holds for EVERY guide (it only needs each new
@@ -25,8 +25,10 @@
     (after encoding/json: one number type) are two instances; [vmap] carries a value from one to the
     other (DiffMerge/GSer.v proves that merging commutes with it).
 
-    [fix4] selects the object diff: [false] is diff.diffMap as it is in the tree, [true] is the repaired
-    diffMap of patches/C03-fix-4 that never reads the "__key" pseudo-field as a field.
+    [fix4] selects the object diff: [true] is diff.diffMap as repaired by patches/C03-fix-4 (in /repo: "fix:
+    diffMap never puts the __key pseudo-field into a delta"), which never reads the "__key" pseudo-field as a
+    field; [false] is the diffMap before that repair.  The harness probes which of the two the tree under
+    test has and evaluates the model with that variant.
 
     [atom_ops] is declared a class only so that the operations are found implicitly inside sections. *)
 From Coq Require Import List ZArith String Ascii Bool Arith Lia.
